@@ -6,6 +6,8 @@ def stages(tier):
          "timeout": 300, "timeout_thorough": 1800},
         {"name": "label", "cmd": "unit", "args": ["-prop", "C03label"], "check": "Check.Freshness.check_label",
          "timeout": 300, "timeout_thorough": 1800},
+        {"name": "e2e", "cmd": "fresh", "args": ["-prop", "C03"], "check": "Check.FreshHistory.check_hist_c03",
+         "timeout": 300, "timeout_thorough": 1800},
     ]
 
 TRUSTED = []
